@@ -61,6 +61,17 @@ fn children(pair: Pair<'_, Rule>) -> impl Iterator<Item = Pair<'_, Rule>> {
     pair.into_inner().filter(|p| p.as_rule() != Rule::COMMENT)
 }
 
+/// The element count of a bounded array. The grammar admits any run of digits, so `0` and
+/// counts beyond 65535 get here: they are an error in the input, in every build profile.
+fn array_size(size: Pair<'_, Rule>) -> Count {
+    size.as_str().parse().unwrap_or_else(|_| {
+        idlc_errors::unrecoverable!(
+            "array size `{}` is not in the range 1..=65535",
+            size.as_str()
+        )
+    })
+}
+
 impl From<pest::Span<'_>> for Span {
     fn from(value: pest::Span) -> Self {
         Self {
@@ -197,8 +208,7 @@ impl From<Pair<'_, Rule>> for ParamTypeIn {
             match pair.as_rule() {
                 Rule::unbounded_array => Self::Array(r#type, None),
                 Rule::bounded_array => {
-                    let size = ast_unwrap!(children(pair).next());
-                    let array_len: Count = ast_unwrap!(size.as_str().parse());
+                    let array_len = array_size(ast_unwrap!(children(pair).next()));
                     Self::Array(r#type, Some(array_len))
                 }
                 _ => unreachable!(),
@@ -223,8 +233,7 @@ impl From<Pair<'_, Rule>> for ParamTypeOut {
             match pair.as_rule() {
                 Rule::unbounded_array => Self::Array(r#type, None),
                 Rule::bounded_array => {
-                    let size = ast_unwrap!(children(pair).next());
-                    let array_len: Count = ast_unwrap!(size.as_str().parse());
+                    let array_len = array_size(ast_unwrap!(children(pair).next()));
                     Self::Array(r#type, Some(array_len))
                 }
                 _ => unreachable!(),
@@ -273,8 +282,7 @@ fn parse_struct(pair: Pair<Rule>) -> Rc<Node> {
                 let next = ast_unwrap!(iter.next());
                 let (elem, ident) = match next.as_rule() {
                     Rule::bounded_array => {
-                        let size = ast_unwrap!(children(next.clone()).next());
-                        let array_len: Count = ast_unwrap!(size.as_str().parse());
+                        let array_len = array_size(ast_unwrap!(children(next.clone()).next()));
                         let ident = ast_unwrap!(iter.next()).as_str().to_string();
                         (array_len, ident)
                     }
